@@ -350,10 +350,22 @@ class InputScope(PSBTScope):
                 raise PSBTError("Duplicated final scriptwitness")
 
         elif k == b"\x0e":
+            if self.txid is not None:
+                raise PSBTError("Duplicated previous txid")
+            if len(v) != 32:
+                raise PSBTError("Previous txid should be 32 bytes long")
             self.txid = bytes(reversed(v))
         elif k == b"\x0f":
+            if self.vout is not None:
+                raise PSBTError("Duplicated output index")
+            if len(v) != 4:
+                raise PSBTError("Output index should be 4 bytes long")
             self.vout = int.from_bytes(v, "little")
         elif k == b"\x10":
+            if self.sequence is not None:
+                raise PSBTError("Duplicated sequence")
+            if len(v) != 4:
+                raise PSBTError("Sequence should be 4 bytes long")
             self.sequence = int.from_bytes(v, "little")
 
         # TODO: 0x13 - tap key signature
@@ -554,8 +566,14 @@ class OutputScope(PSBTScope):
                 self.bip32_derivations[pub] = DerivationPath.parse(v)
 
         elif k == b"\x03":
+            if self.value is not None:
+                raise PSBTError("Duplicated amount")
+            if len(v) != 8:
+                raise PSBTError("Amount should be 8 bytes long")
             self.value = int.from_bytes(v, "little")
         elif k == b"\x04":
+            if self.script_pubkey is not None:
+                raise PSBTError("Duplicated script pubkey")
             self.script_pubkey = Script(v)
 
         # PSBT_OUT_TAP_INTERNAL_KEY
@@ -793,15 +811,15 @@ class PSBT(EmbitBase):
         if tx and version == 2:
             raise PSBTError("Global TX field is not allowed in PSBTv2")
         psbt = cls(tx, unknown, version=version)
-        # input scopes
-        for i, vin in enumerate(psbt.tx.vin):
+        # input scopes, in PSBTv2 all transaction fields come from the scope itself
+        for i in range(len(psbt.inputs)):
             psbt.inputs[i] = cls.PSBTIN_CLS.read_from(
-                stream, compress=compress, vin=vin
+                stream, compress=compress, vin=(tx.vin[i] if tx else None)
             )
         # output scopes
-        for i, vout in enumerate(psbt.tx.vout):
+        for i in range(len(psbt.outputs)):
             psbt.outputs[i] = cls.PSBTOUT_CLS.read_from(
-                stream, compress=compress, vout=vout
+                stream, compress=compress, vout=(tx.vout[i] if tx else None)
             )
         return psbt
 
